@@ -55,7 +55,7 @@ impl Shape {
                 let _ = match k {
                     Kind::F32 => write!(out, "{:?}", f32::from_bits(b as u32)),
                     Kind::F64 => write!(out, "{:?}", f64::from_bits(b)),
-                    Kind::I8 | Kind::I16 | Kind::I32 | Kind::I64 => write!(out, "{}", b as i64),
+                    Kind::I8 | Kind::I16 | Kind::I32 | Kind::I64 | Kind::I128 => write!(out, "{}", b as i64),
                     _ => write!(out, "{}", b),
                 };
             }
@@ -140,7 +140,7 @@ macro_rules! scal {
         }
         impl Subject for $t {
             fn type_name() -> String {
-                $k.name().to_string()
+                stringify!($t).to_string()
             }
             fn shape() -> Shape {
                 Shape::Num($k)
@@ -171,6 +171,10 @@ scal!(u8, Kind::U8, |b: u64| b as u8, |v: u8| v as u64);
 scal!(u16, Kind::U16, |b: u64| b as u16, |v: u16| v as u64);
 scal!(u32, Kind::U32, |b: u64| b as u32, |v: u32| v as u64);
 scal!(u64, Kind::U64, |b: u64| b, |v: u64| v);
+scal!(isize, Kind::I64, |b: u64| b as i64 as isize, |v: isize| v as i64 as u64);
+scal!(usize, Kind::U64, |b: u64| b as usize, |v: usize| v as u64);
+scal!(i128, Kind::I128, |b: u64| b as i64 as i128, |v: i128| v as i64 as u64);
+scal!(u128, Kind::U128, |b: u64| b as u128, |v: u128| v as u64);
 
 // Every impl below is for a *concrete* type. A generic `impl<S: Subject> Subject for Vector3<S>`
 // would have to prove `Vector3<S>: Serialize` from cgmath's own where-clauses, and would stop
@@ -204,16 +208,16 @@ macro_rules! rec {
 }
 
 rec!("Vector1", Vector1, [f32, f64, i8, i16, i32, i64, u8, u16, u32, u64], { x: [] }, [0]);
-rec!("Vector2", Vector2, [f32, f64, i8, i16, i32, i64, u8, u16, u32, u64], { x: [], y: [] }, [0, 0]);
-rec!("Vector3", Vector3, [f32, f64, i8, i16, i32, i64, u8, u16, u32, u64], { x: [], y: [], z: [] }, [0, 0, 0]);
+rec!("Vector2", Vector2, [f32, f64, i8, i16, i32, i64, u8, u16, u32, u64, isize, usize, i128, u128], { x: [], y: [] }, [0, 0]);
+rec!("Vector3", Vector3, [f32, f64, i8, i16, i32, i64, u8, u16, u32, u64, isize, usize, i128, u128], { x: [], y: [], z: [] }, [0, 0, 0]);
 rec!("Vector4", Vector4, [f32, f64, i8, i16, i32, i64, u8, u16, u32, u64], { x: [], y: [], z: [], w: [] }, [0, 0, 0, 0]);
 rec!("Point1", Point1, [f32, f64, i8, i16, i32, i64, u8, u16, u32, u64], { x: [] }, [0]);
 rec!("Point2", Point2, [f32, f64, i8, i16, i32, i64, u8, u16, u32, u64], { x: [], y: [] }, [0, 0]);
-rec!("Point3", Point3, [f32, f64, i8, i16, i32, i64, u8, u16, u32, u64], { x: [], y: [], z: [] }, [0, 0, 0]);
-rec!("Matrix2", Matrix2, [f32, f64, i32, i64], { x: [Vector2], y: [Vector2] }, [1, 0, 0, 1]);
+rec!("Point3", Point3, [f32, f64, i8, i16, i32, i64, u8, u16, u32, u64, isize, usize, i128, u128], { x: [], y: [], z: [] }, [0, 0, 0]);
+rec!("Matrix2", Matrix2, [f32, f64, i32, i64, isize, u128], { x: [Vector2], y: [Vector2] }, [1, 0, 0, 1]);
 rec!("Matrix3", Matrix3, [f32, f64, i32, i64], { x: [Vector3], y: [Vector3], z: [Vector3] }, [1, 0, 0, 0, 1, 0, 0, 0, 1]);
 rec!("Matrix4", Matrix4, [f32, f64, i32, i64], { x: [Vector4], y: [Vector4], z: [Vector4], w: [Vector4] }, [1, 0, 0, 0, 0, 1, 0, 0, 0, 0, 1, 0, 0, 0, 0, 1]);
-rec!("Quaternion", Quaternion, [f32, f64, i32, i64], { v: [Vector3], s: [] }, [0, 0, 0, 1]);
+rec!("Quaternion", Quaternion, [f32, f64, i32, i64, usize, i128, u128], { v: [Vector3], s: [] }, [0, 0, 0, 1]);
 rec!("Euler", Euler, [Rad<f32>, Rad<f64>, Deg<f32>, Deg<f64>], { x: [], y: [], z: [] }, [0, 0, 0]);
 rec!("PerspectiveFov", PerspectiveFov, [f32, f64], { fovy: [Rad], aspect: [], near: [], far: [] }, [1, 1, 1, 2]);
 rec!("Perspective", Perspective, [f32, f64], { left: [], right: [], bottom: [], top: [], near: [], far: [] }, [-1, 1, -1, 1, 1, 2]);
@@ -385,4 +389,6 @@ decomposed!(
     [Vector3<i16>, Point3<i16>, i16],
     [Vector3<f64>, Quaternion<f32>, f64],
     [Vector4<f32>, Matrix3<f64>, f32],
+    [Vector3<i128>, Quaternion<i128>, i128],
+    [Vector2<usize>, Vector2<usize>, usize],
 );
